@@ -48,6 +48,8 @@ type rpProject struct {
 	Tags     string // -build-tags value ("" = default)
 	Constr   string // -output-constraint value ("\x00" = default)
 	Broken   bool   // a selected package does not compile
+	Visible  bool   // the options do NOT hide goverter's own output from the next run (tags without the complementary constraint, or an empty constraint)
+	Nested   bool   // the structs have a nested named struct field: a helper method is generated
 	Neighbor map[string]string
 	tree     scratch.Tree
 }
@@ -101,8 +103,14 @@ func rpGen(r *rng.R, id int) *rpProject {
 			c.Lines = append(c.Lines, fmt.Sprintf("output:file @cwd/cwdir/out%d.go", r.Intn(2)))
 		case k == 3 && !c.Vars:
 			c.Lines = append(c.Lines, "output:format function")
+		case k == 4 && !c.Vars:
+			// into the declaring package itself (the package clause comes from the existing package)
+			c.Lines = append(c.Lines, fmt.Sprintf("output:file ./zz_conv%d_gen.go", i), "output:format function")
 		}
+		samePkg := len(c.Lines) > 0 && strings.HasPrefix(c.Lines[0], "output:file ./zz_conv")
 		switch k := r.Intn(8); {
+		case samePkg:
+			// the file lives in the declaring package: another package clause there would break the user's own package
 		case k == 0:
 			c.Lines = append(c.Lines, "output:package "+p.Module+"/x/y:nm")
 		case k == 1:
@@ -131,6 +139,31 @@ func rpGen(r *rng.R, id int) *rpProject {
 		p.Constr = rng.Pick(r, []string{"!" + first, "!" + first + " && !never", "linux && !" + first, "go1.18 && !" + first})
 		p.Args = append(p.Args, "-build-tags", p.Tags, "-output-constraint", p.Constr)
 	}
+	p.Nested = r.Chance(50)
+	if p.Tags == "" && p.Constr == "\x00" && r.Chance(25) {
+		// options that do not hide the generated files from the next run: the tree stays consistent (the output compiles
+		// together with its package), so regenerating over the CURRENT output must still give the clean-tree bytes
+		p.Visible = true
+		if r.Bool() {
+			p.Tags = rng.Pick(r, []string{"tools", "gen"})
+			p.Args = append(p.Args, "-build-tags", p.Tags)
+		} else {
+			p.Constr = ""
+			p.Args = append(p.Args, "-output-constraint", "")
+		}
+		// the tree must stay a consistent set of packages WITH the generated files in it: no foreign package clause inside
+		// a user package, no file shared between packages
+		for _, c := range p.Convs {
+			var keep []string
+			for _, l := range c.Lines {
+				if strings.HasPrefix(l, "output:package") || strings.HasPrefix(l, "output:file ../") || strings.HasPrefix(l, "output:file @cwd") {
+					continue
+				}
+				keep = append(keep, l)
+			}
+			c.Lines = keep
+		}
+	}
 	switch inv {
 	case 0:
 		p.Args = append(p.Args, "./...")
@@ -148,7 +181,11 @@ func rpGen(r *rng.R, id int) *rpProject {
 	// the tree
 	t := scratch.Tree{"go.mod": "module " + p.Module + "\n\ngo 1.18\n"}
 	for _, pk := range pkgs {
-		t[pk+"/types.go"] = "package " + filepath.Base(pk) + "\n\ntype In struct {\n\tV int\n\tW string\n}\n\ntype Out struct {\n\tV int\n\tW string\n}\n\ntype OutBad struct{ V string }\n"
+		nin, nout := "", ""
+		if p.Nested {
+			nin, nout = "\tN Nest\n\tNs []Nest\n", "\tN NestOut\n\tNs []NestOut\n"
+		}
+		t[pk+"/types.go"] = "package " + filepath.Base(pk) + "\n\ntype Nest struct{ A int }\n\ntype NestOut struct{ A int }\n\ntype In struct {\n\tV int\n\tW string\n" + nin + "}\n\ntype Out struct {\n\tV int\n\tW string\n" + nout + "}\n\ntype OutBad struct{ V string }\n"
 	}
 	byPkg := map[string][]*rpConv{}
 	for _, c := range p.Convs {
@@ -196,7 +233,11 @@ func rpGen(r *rng.R, id int) *rpProject {
 				for _, l := range mlines {
 					b.WriteString("\t" + pre + l + "\n")
 				}
-				b.WriteString("\tConvert" + sig + "\n}\n\n")
+				mname := "Convert"
+				if p.Visible {
+					mname = "Convert" + c.Name
+				}
+				b.WriteString("\t" + mname + sig + "\n}\n\n")
 			}
 		}
 		t[pk+"/conv.go"] = b.String()
@@ -355,6 +396,10 @@ func runRandProj(e *env, n int) error {
 			}
 			// runs over previous states of the output locations
 			mode := staleModes[(p.ID)%len(staleModes)]
+			if p.Visible {
+				// the previous output is an input of the run here: only the output of the same configuration is consistent
+				mode = "current"
+			}
 			rootH, err := fresh("hist")
 			if err != nil {
 				results[i].err = err
@@ -459,6 +504,10 @@ func runRandProj(e *env, n int) error {
 			lines := strings.SplitN(content, "\n", 3)
 			if len(lines) < 2 || !strings.HasPrefix(lines[0], "// Code generated by github.com/jmattheis/goverter, DO NOT EDIT.") {
 				viol("an emitted file does not start with the generated-code header", map[string]any{"file": rel, "head": truncate(content, 200)})
+			} else if want == "" {
+				if strings.HasPrefix(lines[1], "//go:build") {
+					viol("an emitted file carries a build constraint although it is configured empty", map[string]any{"file": rel, "got": lines[1]})
+				}
 			} else if lines[1] != "//go:build "+want {
 				viol("an emitted file does not carry the configured build constraint", map[string]any{"file": rel, "expected": "//go:build " + want, "got": lines[1]})
 			}
